@@ -44,7 +44,7 @@ func c13Counts(tier string) (int, int) {
 }
 
 func c13Kinds() []string {
-	ks := []string{"echo", "nocookie", "wrong", "stale", "trunc", "extend", "garbage", "refirst"}
+	ks := []string{"echo", "nocookie", "wrong", "stale", "trunc", "extend", "garbage", "refirst", "ack-empty", "ack-some", "other-hs"}
 	for _, a := range c13Alters {
 		ks = append(ks, "alter:"+a)
 	}
@@ -409,6 +409,7 @@ func c13Run(rc *RunCtx, params any) {
 		at    time.Duration
 		valid bool
 		kind  string
+		hello bool
 	}
 	var sends []sent
 	recSeq := uint64(0)
@@ -488,6 +489,8 @@ func c13Run(rc *RunCtx, params any) {
 				if body == nil {
 					body = setCookie(ch1, nil)
 				}
+			case st.Kind == "ack-empty", st.Kind == "ack-some", st.Kind == "other-hs":
+				// not a ClientHello at all (built below)
 			case st.Kind == "garbage":
 				body = []byte{0xfe, 0xfd, 1, 2, 3}
 			case len(st.Kind) > 6 && st.Kind[:6] == "alter:":
@@ -508,6 +511,22 @@ func c13Run(rc *RunCtx, params any) {
 				msgSeq++
 			}
 			dg := wrapCH(body, useSeq, recSeq)
+			isHello := true
+			switch st.Kind {
+			case "ack-empty": // a cleartext ACK record that acknowledges nothing
+				dg, isHello = []byte{CTACK, 0xfe, 0xfd, 0, 0, 0, 0, 0, 0, byte(recSeq >> 8), byte(recSeq), 0, 2, 0, 0}, false
+			case "ack-some": // a cleartext ACK record naming two record numbers
+				ack := []byte{0, 32, 0, 0, 0, 0, 0, 0, 0, 0, 0, 0, 0, 0, 0, 0, 0, 0, 0, 0, 0, 0, 0, 0, 0, 0, 0, 0, 0, 0, 0, 0, 0, 1}
+				dg, isHello = append([]byte{CTACK, 0xfe, 0xfd, 0, 0, 0, 0, 0, 0, byte(recSeq >> 8), byte(recSeq), 0, byte(len(ack))}, ack...), false
+			case "other-hs": // a complete handshake message that is not a ClientHello
+				h := make([]byte, 12)
+				h[0] = []byte{HTClientKeyExchange, HTFinished, HTCertificate, 24}[k%4]
+				putU24(h[1:], 4)
+				putU16(h[4:], useSeq)
+				putU24(h[9:], 4)
+				frag := append(h, 1, 2, 3, 4)
+				dg, isHello = append([]byte{CTHandshake, 0xfe, 0xfd, 0, 0, 0, 0, 0, 0, byte(recSeq >> 8), byte(recSeq), byte(len(frag) >> 8), byte(len(frag))}, frag...), false
+			}
 			recSeq++
 			if st.Kind == "first" || st.Kind == "nocookie" || (st.Kind == "refirst" && lastFirstMsgSeq < 0) {
 				lastFirst = body
@@ -516,12 +535,12 @@ func c13Run(rc *RunCtx, params any) {
 			n.InjectNow(from, Addr(2, 4444), dg)
 			s.Settle()
 			s.Record("puppet", "c", fmt.Sprintf("%s valid=%v", st.Kind, valid), nil)
-			sends = append(sends, sent{s.Now(), valid, st.Kind})
+			sends = append(sends, sent{s.Now(), valid, st.Kind, isHello})
 			if valid {
 				validDelivered = true
 				s.Probe("valid-echo-delivered")
 			}
-			if !valid && (st.Kind != "first" && st.Kind != "nocookie" && st.Kind != "garbage" && st.Kind != "refirst") {
+			if !valid && isHello && (st.Kind != "first" && st.Kind != "nocookie" && st.Kind != "garbage" && st.Kind != "refirst") {
 				s.Probe("invalid-second-hello:" + st.Kind)
 			}
 			// ---- oracle, evaluated after every delivery ----
@@ -553,10 +572,18 @@ func c13Run(rc *RunCtx, params any) {
 							if isCookieReq {
 								cookieReqs++
 								coincides := false
+								notHello := ""
 								for _, sd := range sends {
-									if sd.at == em.At {
+									if sd.at == em.At && sd.hello {
 										coincides = true
+									} else if sd.at == em.At {
+										notHello = sd.kind
 									}
+								}
+								if !coincides && notHello != "" {
+									rc.Violate("cookie-request-without-hello:"+notHello, "server emitted a cookie request at t=%v in response to a datagram that carries no ClientHello (%s)", em.At, notHello)
+
+									return
 								}
 								if !coincides {
 									rc.Violate("cookie-request-on-timer", "server emitted a cookie request at t=%v, no ClientHello was delivered at that instant", em.At)
@@ -575,8 +602,14 @@ func c13Run(rc *RunCtx, params any) {
 					}
 				}
 			}
-			if cookieReqs > len(sends) {
-				rc.Violate("more-cookie-requests-than-hellos", "%d cookie requests for %d delivered ClientHellos", cookieReqs, len(sends))
+			hellos := 0
+			for _, sd := range sends {
+				if sd.hello {
+					hellos++
+				}
+			}
+			if cookieReqs > hellos {
+				rc.Violate("more-cookie-requests-than-hellos", "%d cookie requests for %d delivered ClientHellos", cookieReqs, hellos)
 
 				return
 			}
